@@ -61,7 +61,7 @@ Section Replace.
        eq_new += eq
      `fuel` bounds the number of iterations; None = the loop does not terminate within the fuel (this is
      what happens for term = "": idx stays 0 and eq is never shortened). *)
-  Fixpoint loopA (rhs lhs : bool) (fuel : nat) (acc : str) (prev : option ascii) (s : str) : option str :=
+  Fixpoint loopA (rhs lhs : bool) (fuel : nat) (acc : str) (prev : option ascii) (seen : bool) (s : str) : option str :=
     match find s with
     | None => Some (acc ++ s)
     | Some idx =>
@@ -72,14 +72,15 @@ Section Replace.
         let before := match idx with O => prev | S i => nth_error s i end in
         let bound_ok := follow_ok (skipn follow s) && pd_of before in
         let eq_part := firstn idx s in
-        let side_ok := (rhs && has_eq eq_part) || (lhs && negb (has_eq eq_part)) || (negb rhs && negb lhs) in
+        let in_rhs := seen || has_eq eq_part in         (* seen_eq or "=" in eq_part *)
+        let side_ok := (rhs && in_rhs) || (lhs && negb in_rhs) || (negb rhs && negb lhs) in
         let acc' := if bound_ok && side_ok then acc ++ eq_part ++ rep else acc ++ firstn follow s in
         let prev' := match follow with O => None | S k => nth_error s k end in
-        loopA rhs lhs f acc' prev' (skipn follow s)
+        loopA rhs lhs f acc' prev' (seen || has_eq (firstn follow s)) (skipn follow s)
       end
     end.
 
-  Definition replace_flags (rhs lhs : bool) (eq : str) : option str := loopA rhs lhs (S (List.length eq)) [] None eq.
+  Definition replace_flags (rhs lhs : bool) (eq : str) : option str := loopA rhs lhs (S (List.length eq)) [] None false eq.
   Definition replace (eq : str) : option str := replace_flags false false eq.
 
   (* the same loop in suffix-returning form (what the accumulator form is shown equal to) *)
